@@ -299,6 +299,13 @@ class FP:
         tab = st.user.get("uf")
         tab = list(tab) if tab else []
         args = tuple(z3.simplify(a) for a in args)
+        if name == "exp":
+            # exp(k * log(t)) = t^k for a small integer k (t > 0 wherever log(t) is defined): the identity behind
+            # PBasic's power operator; listed in the evidence as an axiom
+            r = self._exp_of_log(tab, args[0])
+            if r is not None:
+                self.ctx.res.assumptions.add("axiom: exp(k*log(t)) = t^k for integer k in -8..8")
+                return r
         for fn, oargs, res in tab:
             if fn != name or len(oargs) != len(args):
                 continue
@@ -316,6 +323,30 @@ class FP:
         st.user["uf"] = tab
         self.ctx.res.assumptions.add("%s() is uninterpreted: only f(x)=f(y) for provably equal arguments is used" % name)
         return y
+
+    def _exp_of_log(self, tab, arg):
+        logs = {res.get_id(): targs[0] for fn, targs, res in tab if fn == "log"}
+        k, y = None, None
+        if arg.get_id() in logs:
+            k, y = 1, arg
+        elif z3.is_mul(arg) and arg.num_args() == 2:
+            a0, a1 = arg.arg(0), arg.arg(1)
+            if z3.is_rational_value(a0) and a1.get_id() in logs:
+                k, y = a0, a1
+            elif z3.is_rational_value(a1) and a0.get_id() in logs:
+                k, y = a1, a0
+            if k is not None:
+                fk = Fraction(k.numerator_as_long(), k.denominator_as_long())
+                if fk.denominator != 1 or abs(fk.numerator) > 8:
+                    return None
+                k = fk.numerator
+        if k is None:
+            return None
+        t = logs[y.get_id()]
+        r = z3.RealVal(1)
+        for _ in range(abs(k)):
+            r = r * t
+        return r if k >= 0 else 1 / r
 
     def pow(self, a, b):
         if self.conc(a) and self.conc(b):
